@@ -35,6 +35,8 @@ OBLIGATIONS = [
     "VgiVerif.C40.others_disjoint",
     "VgiVerif.C40.C40_every",
     "VgiVerif.C40.C40_probe",
+    "VgiVerif.C40.probe_of_expected",
+    "VgiVerif.C40.C40_probe_response",
 ]
 TRUSTED = [
     "Falcon runs every process_response hook on every response (independent middleware) and stores header names lower-cased — exercised on every route kind, not modelled",
